@@ -35,7 +35,10 @@ MANIFEST = {
             'does alone; two to four jobs (one of them possibly rejected) are '
             'compiled first and executed afterwards, in order or shuffled, and '
             'each must do what its script does as the only job. Sampled '
-            'histories.',
+            'histories.'
+            ' Blank and comment-only texts are loaded and executed on the'
+            ' reused job in between, often after a stop request made whil'
+            'e it was idle.',
     'note': 'Trusted: equality of event logs / instruction fingerprints as the '
             'notion of "same result". Device state is reset between runs '
             '(replies to `get` are part of the environment, not of the job).',
